@@ -10,7 +10,7 @@ import (
 // pstr prints a byte string for a case file: short strings as a plain list,
 // long ones as `(unp [0x1<hex>; ...])` (see coq/theories/Lib/PackedBytes.v).
 func pstr(s string) string {
-	if len(s) <= 40 {
+	if len(s) <= 12 {
 		return hx.Str(s)
 	}
 	const chunk = 1000
